@@ -129,7 +129,7 @@ CLAIMED = {
                   'failures injected into user callbacks at every subset of '
                   'row (and field) positions x 3 policies x argument-vs-'
                   'config; oracle = policy model',
-        text='16 operator forms (convert in all its argument forms, convertall, convertnumbers, format(all), interpolate(all), fieldmap, rowmap incl. lazily failing mappers, rowmapmany with partial output) on tables of n <= 6 rows; inside each scenario every subset of failing positions x {False, True, inline} x {argument, petl.config.failonerror at construction} is run, with failures of seven exception classes (plain, StopIteration, KeyError, IndexError, TypeError, AttributeError) and one or two interleaved consumers, after a decoy view of the same form with another errorvalue; expected rows, the surfaced exception object and its position come from a small policy model.',
+        text='16 operator forms (convert in all its argument forms, convertall, convertnumbers, format(all), interpolate(all), fieldmap, rowmap incl. lazily failing mappers, rowmapmany with partial output) on tables of n <= 6 rows; inside each scenario every subset of failing positions x {False, True, inline} x {argument, petl.config.failonerror at construction} is run, with failures of six exception classes (plain, StopIteration, KeyError, IndexError, TypeError, AttributeError) and one or two interleaved consumers, after a decoy view of the same form with another errorvalue; expected rows, the surfaced exception object and its position come from a small policy model.',
         note='Trusted: the policy model in checks/c19.py; injected '
              'exceptions are identified by object identity, natural '
              'failures by type.'),
